@@ -694,11 +694,16 @@ def _install(ch):
     def sim_link(src, dst, *a, **kw):
         rs, rd = guard(src, 'link'), guard(dst, 'link')
         xdev(rs, rd, src, dst)
+        if os.path.lexists(dst):
+            # a link never replaces an existing name: it fails before anything is touched - not an effect, not a fault point
+            return _real_os['link'](src, dst, *a, **kw)
         ch.effect('link', src=rs, dst=rd)
         return done(_real_os['link'], src, dst, *a, **kw)
 
     def sim_symlink(src, dst, *a, **kw):
         rd = guard(dst, 'symlink')
+        if os.path.lexists(dst):
+            return _real_os['symlink'](src, dst, *a, **kw)
         ch.effect('symlink', src=os.fspath(src), dst=rd)
         return done(_real_os['symlink'], src, dst, *a, **kw)
 
